@@ -164,6 +164,12 @@ func (s *Shard) InsertPoints(points []models.Point) error {
 		// ---------------------------
 		// Kick off index dispatcher
 		ctx, cancel := context.WithCancel(context.Background())
+		/* The pipeline stages below read and write through this transaction
+		 * from their own goroutines. If anything fails we return early and the
+		 * transaction is rolled back, so we must first cancel and wait for
+		 * every stage to stop, otherwise they access a closed transaction. */
+		ctx, waitForPipeline := utils.WithPipelineTracking(ctx)
+		defer waitForPipeline()
 		defer cancel()
 		// ---------------------------
 		pointsQ := utils.ProduceWithContext(ctx, points)
@@ -244,6 +250,12 @@ func (s *Shard) UpdatePoints(points []models.Point) ([]uuid.UUID, error) {
 		// ---------------------------
 		// Kick off index dispatcher
 		ctx, cancel := context.WithCancel(context.Background())
+		/* The pipeline stages below read and write through this transaction
+		 * from their own goroutines. If anything fails we return early and the
+		 * transaction is rolled back, so we must first cancel and wait for
+		 * every stage to stop, otherwise they access a closed transaction. */
+		ctx, waitForPipeline := utils.WithPipelineTracking(ctx)
+		defer waitForPipeline()
 		defer cancel()
 		// ---------------------------
 		pointsQ := utils.ProduceWithContext(ctx, points)
@@ -495,6 +507,12 @@ func (s *Shard) DeletePoints(deleteSet map[uuid.UUID]struct{}) ([]uuid.UUID, err
 		// ---------------------------
 		// Kick off index dispatcher
 		ctx, cancel := context.WithCancel(context.Background())
+		/* The pipeline stages below read and write through this transaction
+		 * from their own goroutines. If anything fails we return early and the
+		 * transaction is rolled back, so we must first cancel and wait for
+		 * every stage to stop, otherwise they access a closed transaction. */
+		ctx, waitForPipeline := utils.WithPipelineTracking(ctx)
+		defer waitForPipeline()
 		defer cancel()
 		// ---------------------------
 		pointsQ := utils.ProduceWithContextMapKeys(ctx, deleteSet)
